@@ -307,6 +307,29 @@ fn main() {
         m.distfiles.push(file(&long, SHAPES[2], Some(u64::MAX)));
         models.push(m);
     }
+    // byte sweep: every byte value inside and at the end of the RCS Id line, and inside a distfile / patch name
+    for b in 1u16..=255 {
+        let b = b as u8;
+        if b == b'\n' {
+            continue;
+        }
+        let blank = b == b' ' || (0x09..=0x0d).contains(&b);
+        let mut r = b"$NetBSD: distinfo,v 1.".to_vec();
+        r.push(b);
+        r.extend_from_slice(b" Exp $");
+        let mut r2 = b"$NetBSD: distinfo,v 1.1 Exp $".to_vec();
+        r2.push(b);
+        let dname = if blank || b == b'/' { b"plain.tgz".to_vec() } else { [b"d".as_slice(), &[b], b"x.tgz"].concat() };
+        let pname = if blank || b == b'/' { b"patch-plain".to_vec() } else { [b"patch-a".as_slice(), &[b], b"b"].concat() };
+        let p_ok = md::classify(&pname) == md::Class::Patch;
+        for rcs in [r, r2] {
+            models.push(Model {
+                rcsid: Some(rcs),
+                distfiles: vec![file(&dname, SHAPES[1], Some(b as u64))],
+                patchfiles: if p_ok { vec![file(&pname, SHAPES[0], None)] } else { vec![] },
+            });
+        }
+    }
     run.bound("scale: files with 9..130 distfiles and as many patches (1-6 checksums each, sizes 2^k), and a 300-byte non-UTF-8 name");
     par_items(&run, "C10 files", &models, |i, m, t| {
         t.states += 1;
